@@ -269,7 +269,24 @@ def apply_contract(it, fv, args, kwargs):
         kind, exc, _ = choices[idx]
         if kind == 'raise':
             it.raise_exc(exc, 'by contract of %s' % c.qualname)
-    if c.result_type is None or c.result_type == 'none':
+    if c.pure:
+        # pure method: the result is an uninterpreted function of the packed receiver
+        from .pack import to_term, from_term
+        recv = list(bound.values())[0]
+        if isinstance(recv, Packed):
+            desc = recv.tdesc
+        else:
+            rec = it.types.record_of_class(recv.cls)
+            if rec is None:
+                raise Unsupported('pure contract %s applied to an object without a record' % c.qualname)
+            desc = rec.key
+        st = to_term(it, recv, desc)
+        f = z3.Function('%s@%s' % (c.qualname, desc.split('.')[-1]), st.sort(),
+                        it.types.sort_of(c.result_type))
+        rt = f(st)
+        result = from_term(it, rt, c.result_type)
+        it.p.ghost.setdefault('pure_calls', []).append((c.qualname, recv, desc, st, rt))
+    elif c.result_type is None or c.result_type == 'none':
         result = None
     else:
         from .pack import fresh_value
